@@ -63,7 +63,7 @@ MUST_FIRE = [
      "            utilities_cand[b, query_indices] = np.nan\n"),
     ("rtal-kmeans-raw-random-state", ["C06"], ["R6.4"], P + "pool/_regression_tree_based_al.py",
      "n_k_discrete[leaf], random_state=self.random_state_", "n_k_discrete[leaf], random_state=self.random_state"),
-    ("budget-manager-not-copied", ["C06", "C03"], ["R6.5", "R3"], P + "utils/_validation.py",
+    ("budget-manager-not-copied", ["C06", "C03", "C10", "C13"], ["R6.5", "R3", "R10.10", "R13.1"], P + "utils/_validation.py",
      "budget_manager_ = copy.deepcopy(budget_manager)", "budget_manager_ = budget_manager"),
     ("zliobaite-closed-form-decay", ["C04", "C10"], ["R4.4", "R10.3"], BZ,
      "        for s in queried:\n            self.u_t_ = self.u_t_ * ((self.w - 1) / self.w) + s\n",
@@ -220,7 +220,7 @@ MUST_FIRE = [
     ("parallel-extra-nan-at-labeled", ["C20"], ["R20.1"], P + "pool/_wrapper.py",
      "            utilities[mapping] = utilities_cand\n", "            utilities[mapping] = utilities_cand\n            utilities[is_labeled(y, missing_label=self.missing_label_)] = np.nan\n"),
     ("saw-inner-always-sample-candidates", ["C20"], ["R20.3"], P + "pool/multiannotator/_wrapper.py",
-     "candidates_sq = mapping if mapping is not None else X_cand", "candidates_sq = X_cand"),
+     "            candidates_sq = mapping[has_annotator]\n", "            candidates_sq = X[mapping[has_annotator]]\n"),
     ("argmin-seed-truthiness", ["C06", "C18"], ["R6.7", "R18.1"], SEL,
      "def rand_argmin(a, random_state=None, **argmin_kwargs):", "def rand_argmin(a, random_state=None, **argmin_kwargs):\n    random_state = random_state or None", 1),
     # ---- C03
@@ -268,8 +268,6 @@ MUST_FIRE = [
      "        self.queried_samples_ += np.sum(queried)\n        # update the random state", "        self.queried_samples_ += np.count_nonzero(queried_indices)\n        # update the random state"),
     ("periodic-observed-counts-elements", ["C04"], ["R4.6"], P + "stream/_stream_baselines.py",
      "        self.observed_samples_ += len(queried)\n", "        self.observed_samples_ += np.size(candidates)\n"),
-    ("budget-manager-not-copied", ["C03", "C06", "C10", "C13"], ["R3", "R6.5", "R10.10", "R13.1"], P + "utils/_validation.py",
-     "budget_manager_ = copy.deepcopy(budget_manager)", "budget_manager_ = budget_manager"),
     ("budget-manager-shallow-copied", ["C03", "C06", "C10", "C13"], ["R3", "R6.5", "R10.10", "R13.1"], P + "utils/_validation.py",
      "budget_manager_ = copy.deepcopy(budget_manager)", "budget_manager_ = copy.copy(budget_manager)"),
     ("spal-row-sum-not-kept", ["C10"], ["R10.11"], P + "stream/_stream_probabilistic_al.py",
